@@ -109,22 +109,70 @@ Fixpoint strip_trailing_commas (s : bytes) : bytes :=
   end.
 Definition row_key (lcol : bytes) : bytes := strip_trailing_commas (take_token (drop_spaces lcol)).
 
-(** ---- spec_vals (possible values only, see the domain note in UsageModel.v) ---- *)
+(** ---- spec_vals ---- *)
 Definition use_long_pv (use_long : bool) (a : harg) : bool :=
   use_long && existsb pv_should_show_help (ha_possible_values a).
-Definition s_pv_open : bytes := [91; 112; 111; 115; 115; 105; 98; 108; 101; 32; 118; 97; 108; 117; 101; 115; 58; 32].
 Definition visible_pvs (a : harg) : list hpv := filter (fun p => negb (pv_hide p)) (ha_possible_values a).
-Definition spec_vals (use_long : bool) (a : harg) : bytes :=
-  if negb (ha_hide_pv a) && negb (use_long_pv use_long a) && negb (is_nil (ha_possible_values a))
-  then s_pv_open ++ intercalate [44; 32] (map pv_name (visible_pvs a)) ++ [93]
+
+(** [char::is_whitespace] on ASCII; [{:?}] of a [str] ([str::escape_debug] between quotes) on ASCII:
+    names and values are ASCII in the domain *)
+Definition is_ascii_whitespace (c : N) : bool := ((9 <=? c) && (c <=? 13)) || (c =? 32).
+Definition hex_digit (d : N) : N := if d <? 10 then 48 + d else 87 + d.
+Definition debug_char (c : N) : bytes :=
+  if c =? 0 then [92; 48] else if c =? 9 then [92; 116] else if c =? 10 then [92; 110]
+  else if c =? 13 then [92; 114] else if c =? 34 then [92; 34] else if c =? 92 then [92; 92]
+  else if (c <? 32) || (c =? 127)
+       then [92; 117; 123] ++ (if c <? 16 then [] else [hex_digit (c / 16)]) ++ [hex_digit (c mod 16)] ++ [125]
+       else [c].
+Definition debug_str (s : bytes) : bytes := [34] ++ flat_map debug_char s ++ [34].
+(** [if s.contains(char::is_whitespace) { format!("{s:?}") } else { s }] *)
+Definition quote_if_ws (s : bytes) : bytes := if existsb is_ascii_whitespace s then debug_str s else s.
+
+Definition s_env_open : bytes := [91; 101; 110; 118; 58; 32].                               (* "[env: " *)
+Definition s_default_open : bytes := [91; 100; 101; 102; 97; 117; 108; 116; 58; 32].         (* "[default: " *)
+Definition s_aliases_open : bytes := [91; 97; 108; 105; 97; 115; 101; 115; 58; 32].          (* "[aliases: " *)
+Definition s_saliases_open : bytes :=
+  [91; 115; 104; 111; 114; 116; 32; 97; 108; 105; 97; 115; 101; 115; 58; 32].               (* "[short aliases: " *)
+Definition s_pv_open : bytes := [91; 112; 111; 115; 115; 105; 98; 108; 101; 32; 118; 97; 108; 117; 101; 115; 58; 32].
+
+(** the five pushes of [spec_vals], in the order of the code *)
+Definition env_group (a : harg) : list bytes :=
+  match ha_env a with
+  | Some (name, value) =>
+      if negb (ha_hide_env a)
+      then [s_env_open ++ name ++ (if negb (ha_hide_env_values a) then [61] ++ opt_default [] value else []) ++ [93]]
+      else []
+  | None => []
+  end.
+Definition default_group (a : harg) : list bytes :=
+  if ha_takes_value a && negb (ha_hide_default a) && negb (is_nil (ha_defaults a))
+  then [s_default_open ++ intercalate [32] (map quote_if_ws (ha_defaults a)) ++ [93]]
   else [].
+Definition alias_group (a : harg) : list bytes :=
+  let als := intercalate [44; 32] (map fst (filter snd (ha_aliases a))) in
+  if negb (is_nil als) then [s_aliases_open ++ als ++ [93]] else [].
+Definition salias_group (a : harg) : list bytes :=
+  let als := intercalate [44; 32] (map (fun p => [fst p]) (filter snd (ha_short_aliases a))) in
+  if negb (is_nil als) then [s_saliases_open ++ als ++ [93]] else [].
+(** [PossibleValue::get_visible_quoted_name] over the values that are not hidden *)
+Definition pv_quoted_names (a : harg) : list bytes := map (fun p => quote_if_ws (pv_name p)) (visible_pvs a).
+Definition pv_group (use_long : bool) (a : harg) : list bytes :=
+  if negb (ha_hide_pv a) && negb (use_long_pv use_long a) && negb (is_nil (ha_possible_values a))
+  then [s_pv_open ++ intercalate [44; 32] (pv_quoted_names a) ++ [93]]
+  else [].
+Definition spec_vals_list (use_long : bool) (a : harg) : list bytes :=
+  env_group a ++ default_group a ++ alias_group a ++ salias_group a ++ pv_group use_long a.
+Definition spec_vals (use_long : bool) (a : harg) : bytes :=
+  intercalate (if use_long then [10] else [32]) (spec_vals_list use_long a).
 
 Record row := mkRow {
   r_id : bytes;          (* arg id / subcommand name *)
   r_left : bytes;        (* the text written after TAB *)
   r_pad : N;             (* spaces written by align_to_about / subcmd *)
   r_nl : bool;           (* help starts on the next line *)
-  r_pvs : list bytes     (* possible values listed with the row *)
+  r_pvs : list bytes;    (* possible values listed with the row (inline group or long list) *)
+  r_spec : bytes;        (* the [spec_vals] text appended to the help *)
+  r_long_pvs : list bytes  (* the names written by the long-form list "Possible values:" *)
 }.
 (** column (characters from the line start) at which the row's help text starts *)
 Definition row_col (r : row) : N := TAB_WIDTH + len (r_left r) + r_pad r.
@@ -183,19 +231,22 @@ Definition help_pvs (cx : hctx) (a : harg) (spaces : N) : option (list bytes) :=
                end) (visible_pvs a)
   else Some [].
 
-(** [help] for an argument row: the indent of the text and the possible values *)
-Definition help_arg (cx : hctx) (a : harg) (next_line_help : bool) (longest : N) : option (list bytes) :=
+(** [help] for an argument row: the indent of the text and the possible values; the result is
+    (values listed in either form, names written by the long-form list) *)
+Definition help_arg (cx : hctx) (a : harg) (next_line_help : bool) (longest : N)
+  : option (list bytes * list bytes) :=
   let spaces := if next_line_help then TAB_WIDTH + NEXT_LINE_INDENT_LEN else longest + TAB_WIDTH * 2 in
   dO long_pvs <- help_pvs cx a spaces;
   Some (if ha_hide_pv a || is_nil (ha_possible_values a) then []
-        else map pv_name (visible_pvs a)).
+        else map pv_name (visible_pvs a), long_pvs).
 
 (** [write_arg] *)
 Definition write_arg (cx : hctx) (a : harg) (next_line_help : bool) (longest : N) : option row :=
   dO lcol <- left_col a;
   dO pad <- align_to_about cx a next_line_help longest;
+  let spec := spec_vals (cx_use_long cx) a in
   dO pvs <- help_arg cx a next_line_help longest;
-  Some (mkRow (ha_id a) lcol pad next_line_help pvs).
+  Some (mkRow (ha_id a) lcol pad next_line_help (fst pvs) spec (snd pvs)).
 
 (** the first loop of [write_args]: [longest] over the shown args; an arg that [longest_filter]
     skips (a short-only flag) still counts with its own rendered width (repair bad6087) *)
@@ -269,7 +320,7 @@ Definition write_subcommands (cx : hctx) (c : hcmd) : option (list row) :=
   let next_line_help := existsb (fun sc => subcommand_next_line_help cx sc longest) vis in
   map_opt (fun p => let sc := snd p in
                     dO pad <- subcmd (sc_str sc) next_line_help longest;
-                    Some (mkRow (hc_name sc) (sc_str sc) pad next_line_help [])) ord_v.
+                    Some (mkRow (hc_name sc) (sc_str sc) pad next_line_help [] [] [])) ord_v.
 
 (** ---- [write_all_args] ---- *)
 Definition s_commands : bytes := [67; 111; 109; 109; 97; 110; 100; 115].
